@@ -15,7 +15,7 @@ import sys
 import threading
 import types
 
-from simkit import fp as fpm, mon, rng as rngm, spec, universe as U
+from simkit import fp as fpm, locks, mon, rng as rngm, spec, universe as U
 from engines import common as C
 from engines.common import flatten_records, static_chains
 
@@ -266,12 +266,15 @@ def memoless_outcome(chain, op, fname, budget):
             ctx.stack.append(U.Frame(None, ()))
             ctx.task.deadline = ctx.task.local + budget
             try:
-                res = memoless(mods[-1], fname, U.fresh_text(op['text']), op.get('pos', 0))
+                with locks.sut():
+                    res = memoless(mods[-1], fname, U.fresh_text(op['text']), op.get('pos', 0))
                 if res[0]:
                     return [True, fpm.value_fp(res[1], aliasing=False), res[2]]
                 return [False, fpm.norm_text(getattr(res[1], '__name__', repr(res[1]))), res[2]]
             except mon.StepBudget:
                 return ['budget']
+            except locks.Deadlock:
+                return ['exc', 'Deadlock']
             except Exception as e:
                 return ['exc', type(e).__name__]
             finally:
